@@ -789,16 +789,19 @@ def run(ctx):
         import pyarrow as pa
         pa.set_cpu_count(8)
         pa.set_io_thread_count(8)
-        if kind == "e3a":
-            run_e3a(col, scratch, name, W, bound, shard)
-        elif kind == "e3b":
-            run_e3b(col, name, bound, shard, scope=W)
-        elif kind == "e3c":
-            run_e3c(col, bound)
-        elif kind == "packs":
-            run_two_packs(col, scratch, bound, shard)
-        else:
+        if kind == "free":
             run_free(col, scratch, ctx.tier)
+            return
+        # a lock owned by the library is a scheduling point for managed threads (a real block would hang the explorer)
+        with sched.cooperative_locks():
+            if kind == "e3a":
+                run_e3a(col, scratch, name, W, bound, shard)
+            elif kind == "e3b":
+                run_e3b(col, name, bound, shard, scope=W)
+            elif kind == "e3c":
+                run_e3c(col, bound)
+            elif kind == "packs":
+                run_two_packs(col, scratch, bound, shard)
 
     # the free-running grid needs the cores for itself: run it first, alone
     order = [i for i, u in enumerate(units) if u[0] == "free"] + [i for i, u in enumerate(units) if u[0] != "free"]
